@@ -49,8 +49,12 @@ def run(res, proof):
         structs.append(gen.random_structure(rng, rng.randint(6, 30 if quick else 120), pair_bias=rng.choice((0.5, 0.8)), depth_bias=rng.choice((0.3, 0.7))))
     objectio.set_io_objects()
     lines, impl = [], []
-    for s in structs:
-        names = gen.complementary_label(s, rng, NAMES)
+    # copies of ONE strand with a pairing that is not symmetric (all rotations share the sequence, not the structure)
+    homo = [(['a', 'a*', '+', 'a', 'a*'], '(.+.)'), (['a', 'a*', '+', 'a', 'a*', '+', 'a', 'a*'], '(.+.)+..'),
+            (['t', 'a', 't*', '+', 't', 'a', 't*'], '..(+)..'), (['a', 'a*', '+', 'a', 'a*', '+', 'a', 'a*'], '.(+)(+).')]
+    for s in [h[1] for h in homo] + structs:
+        preset = [h[0] for h in homo if h[1] == s]
+        names = preset[0] if preset else gen.complementary_label(s, rng, NAMES)
         clear_singletons(ComplexS); clear_singletons(DomainS)
         doms = {}
         for n in set(x for x in names if x != '+'):
@@ -79,13 +83,29 @@ def run(res, proof):
             clear_singletons(ComplexS)
             cname = rng.choice(CNAMES)
             try:
-                c = ComplexS([doms[x] if x != '+' else '+' for x in rn], rs, name=cname)
+                if rng.random() < 0.15:
+                    # automatically named, with an explicit (possibly empty) prefix: read back under the name it reports
+                    c = ComplexS([doms[x] if x != '+' else '+' for x in rn], rs, prefix=rng.choice(['', 'k', 'cplx_']))
+                    cname = c.name
+                else:
+                    c = ComplexS([doms[x] if x != '+' else '+' for x in rn], rs, name=cname)
                 ks = c.kernel_string
                 text = cname + ' = ' + ks
                 back = objectio.read_pil_line(text)
                 ok = (back is c) and [str(x) for x in back.sequence] == rn and list(back.structure) == rs
                 obs = 'same object: %s, %s / %s' % (back is c, ' '.join(map(str, back.sequence)), ''.join(back.structure))
                 del back
+                # the kernel string of ANOTHER rotation, read while the object lives in this one: the same singleton
+                if c.size > 1:
+                    t0 = c.turns
+                    c.turns = t0 + 1
+                    ks_other = c.kernel_string
+                    c.turns = t0
+                    back2 = objectio.read_pil_line(cname + ' = ' + ks_other)
+                    if back2 is not c:
+                        ok = False
+                        obs = 'the kernel string of the next rotation (%s) read under the same name is not the live object' % ks_other
+                    del back2
                 # a fresh registry: the description alone must come back
                 del c
                 clear_singletons(ComplexS)
